@@ -179,6 +179,12 @@ def gen_program(rng, opts=None):
         if rng.random() < 0.6:
             heads = [h for h in heads if h[0] != "wlog"] + [h for h in heads if h[0] == "wlog"]   # log never the first head
         rules.append(dict(heads=heads, body=body))
+        if rng.random() < opts.get("p_wlog_reader", 0.6):
+            # ... and is read by a LATER stratum only: what that stratum sees is what the looping SCC handed over at its exit
+            wout = ("wout", log[1], "rel")
+            rels.append(wout)
+            vs = ["y%d" % i for i in range(log[1])]
+            rules.append(dict(heads=[("wout", [("v", v) for v in vs])], body=[("clause", "wlog", [("v", v) for v in vs], [])]))
     if rng.random() < 0.2:   # a body-less fact rule
         name, arity, _ = rng.choice(rels)
         rules.append(dict(heads=[(name, [("c", rng.choice(DOM)) for _ in range(arity)])], body=[]))
